@@ -28,7 +28,7 @@ INITS = [{'theta': [0.0, 'rad'], 'w': [0.0, 'rad/s']},
          {'theta': [0.5, 'rad'], 'w': [3.0, 'rad/s']},
          {'theta': [-1.0, 'rad'], 'w': [-2.0, 'rad/s']},
          {'theta': [45.0, 'deg'], 'w': [20.0, 'rpm']}]
-SCHEDULES = ['run', 'run+continue', 'stop', 'reset-rerun']
+SCHEDULES = ['run', 'run+continue', 'stop', 'reset-rerun', 'reset-reinit-other-units', 'redeclare-then-continue']
 
 
 def shards(tier):
@@ -61,6 +61,17 @@ def schedule_ops(name, spec, duty=None):
         return [('run', DT, [1.0, 'sec'], duty, ['encoder', n - 1, '>=', [0.3, 'rad']])]
     if name == 'reset-rerun':
         return [('run', DT, [0.5, 'sec'], duty, None), ('reset',), ('run', DT, [0.5, 'sec'], duty, None)]
+    if name == 'reset-reinit-other-units':
+        init = spec['init']
+        th = [si.convert(si.si(init['theta'][0], 'AngularPosition', init['theta'][1]), 'AngularPosition', 'rad', 'rot'), 'rot']
+        w = [si.convert(si.si(init['w'][0], 'AngularSpeed', init['w'][1]), 'AngularSpeed', 'rad/s', 'deg/min'), 'deg/min']
+        return [('run', DT, [0.5, 'sec'], duty, None), ('reset',), ('reinit', {'theta': th, 'w': w}), ('run', DT, [0.5, 'sec'], duty, None)]
+    if name == 'redeclare-then-continue':
+        # a gear mating of the chain is declared again as a fixed joint (ratio 1) after the Solver exists, then the run continues
+        for i, l in enumerate(spec['links']):
+            if l['t'] == 'G':
+                return [('run', DT, [0.375, 'sec'], duty, None), ('redeclare', i, {'t': 'J'}), ('run', DT, [0.375, 'sec'], duty, None)]
+        return None
     raise ValueError(name)
 
 
@@ -73,28 +84,36 @@ def check_case(acc, chain_l, locking, load, init, sched, overload=False):
             'sched': sched, 'overload': overload}
     name = menu.chain_name(chain_l)
     ops = schedule_ops(sched, spec)
+    if ops is None:
+        return
     m, info = sim.run_schedule(spec, ops)
     acc.executions += 1
     if info['error']:
         acc.violation(f'C01/run-error/{info["error"][0]}', 'simulation runs', case, {'error': info['error']})
         if not info['segments'] and not len(m.pt.time):
             return
-    chain = sim.chain_ref(spec)
+    chain = sim.chain_ref(m.spec)          # (the spec in force at the end: relations may have been re-declared)
     # ratio attribute vs reference
     for i in range(1, chain.n):
         r = m.elements[i].master_gear_ratio
         if not si.close(r, chain.ratios[i], 1e-12):
-            acc.violation(f'C01/ratio-attribute/{spec["links"][i-1]["t"]}', 'master_gear_ratio = reference ratio', case,
+            acc.violation(f'C01/ratio-attribute/{m.spec["links"][i-1]["t"]}', 'master_gear_ratio = reference ratio', case,
                           {'i': i, 'got': r, 'ref': chain.ratios[i]})
-        if spec['links'][i - 1]['t'] == 'J' and r != 1.0:
+        if m.spec['links'][i - 1]['t'] == 'J' and r != 1.0:
             acc.violation('C01/ratio-attribute/joint-not-1', 'joint ratio exactly 1', case, {'i': i, 'got': r})
-    observations = [seg[0] for seg in info['segments']] + [m.observe()]
-    for obs in observations:
+    observations = [(seg[0], chain) for seg in info['segments']]
+    final = m.observe()
+    if info.get('spec_changes'):
+        k0, _ = info['spec_changes'][0]
+        observations += [(sim.slice_obs(final, 0, k0), sim.chain_ref(spec)), (sim.slice_obs(final, k0, len(final['time'])), chain)]
+    else:
+        observations.append((final, chain))
+    for obs, chain in observations:
         def emit(sfx, clause, k, detail):
             d = dict(detail)
             d['instant'] = k
             d['chain'] = name
-            acc.violation(f'C01/{sfx}', clause, case, d)
+            acc.violation(f'C01/{sfx}' + (f'/{sched}' if sched in ('reset-reinit-other-units', 'redeclare-then-continue') else ''), clause, case, d)
         acc.transitions += traj.coupling(obs, chain, emit)
         nk = len(obs['time'])
         for k in range(nk):
